@@ -13,6 +13,7 @@
 package main
 
 import (
+	"strconv"
 	"flag"
 	"fmt"
 	"math"
@@ -301,6 +302,21 @@ func (s snap) diff(p *canvas.Path) string {
 	return ""
 }
 
+// diffVisible compares only the cells within the path's length (the alias probe: writes into spare capacity beyond len are
+// not visible through the path)
+func (s snap) diffVisible(p *canvas.Path) string {
+	d := p.Data()
+	if len(d) != s.n {
+		return fmt.Sprintf("len %d -> %d", s.n, len(d))
+	}
+	for i := 0; i < s.n && i < len(s.full); i++ {
+		if d[i] != s.full[i] && !(math.IsNaN(d[i]) && math.IsNaN(s.full[i])) {
+			return fmt.Sprintf("data cell %d: %v -> %v", i, s.full[i], d[i])
+		}
+	}
+	return ""
+}
+
 func (s snap) restore(p *canvas.Path) {
 	if s.c > 0 {
 		d := p.Data()
@@ -311,6 +327,78 @@ func (s snap) restore(p *canvas.Path) {
 			}
 		}
 	}
+}
+
+// produced collects the paths returned by the action that is being observed (reset before each action)
+var produced []*canvas.Path
+
+func keep(ps ...*canvas.Path) { produced = append(produced, ps...) }
+
+// wfGo mirrors PathEnc.Enc.wf_data (the Coq validator) on raw path data: decodable from the front with the command value at
+// both ends of every record, every subpath starts with a move, a close returns to the subpath start and ends the subpath,
+// no zero-length line/quad/cubic/arc, valid arc fields, finite numbers. "" = well-formed.
+func wfGo(d []float64) string {
+	var start, cur [2]float64
+	have := false
+	for i := 0; i < len(d); {
+		cmd := d[i]
+		l := 4
+		switch cmd {
+		case canvas.MoveToCmd, canvas.LineToCmd, canvas.CloseCmd:
+		case canvas.QuadToCmd:
+			l = 6
+		case canvas.CubeToCmd, canvas.ArcToCmd:
+			l = 8
+		default:
+			return fmt.Sprintf("unknown command value %v at %d", cmd, i)
+		}
+		if i+l > len(d) {
+			return fmt.Sprintf("record at %d runs past the end", i)
+		}
+		if d[i+l-1] != cmd {
+			return fmt.Sprintf("record at %d does not end with its command value", i)
+		}
+		for _, v := range d[i+1 : i+l-1] {
+			if math.IsNaN(v) || math.IsInf(v, 0) {
+				return fmt.Sprintf("non-finite number in record at %d", i)
+			}
+		}
+		end := [2]float64{d[i+l-3], d[i+l-2]}
+		switch cmd {
+		case canvas.MoveToCmd:
+			start, have = end, true
+		case canvas.CloseCmd:
+			if !have {
+				return fmt.Sprintf("close at %d outside a subpath", i)
+			}
+			if end != start {
+				return fmt.Sprintf("close at %d goes to (%v,%v), the subpath starts at (%v,%v)", i, end[0], end[1], start[0], start[1])
+			}
+			have = false
+		default:
+			if !have {
+				return fmt.Sprintf("segment at %d outside a subpath", i)
+			}
+			zero := end == cur
+			if cmd == canvas.QuadToCmd {
+				zero = zero && [2]float64{d[i+1], d[i+2]} == cur
+			} else if cmd == canvas.CubeToCmd {
+				zero = zero && [2]float64{d[i+1], d[i+2]} == cur && [2]float64{d[i+3], d[i+4]} == cur
+			}
+			if zero {
+				return fmt.Sprintf("zero-length segment at %d", i)
+			}
+			if cmd == canvas.ArcToCmd {
+				rx, ry, phi, fl := d[i+1], d[i+2], d[i+3], d[i+4]
+				if !(0 < rx && 0 < ry && 0 <= phi && phi < math.Pi && (fl == 0 || fl == 1 || fl == 2 || fl == 3)) {
+					return fmt.Sprintf("invalid arc fields at %d: rx=%v ry=%v phi=%v flags=%v", i, rx, ry, phi, fl)
+				}
+			}
+		}
+		cur = end
+		i += l
+	}
+	return ""
 }
 
 type action struct {
@@ -387,7 +475,7 @@ func actions(r *rng.R) []action {
 		{name: "Filling", f: func(p, q *canvas.Path) { p.Filling(fr) }},
 		{name: "Windings", f: func(p, q *canvas.Path) { p.Windings(qx, qy); p.Crossings(qx, qy); p.Contains(qx, qy, fr) }},
 		{name: "Segments", f: func(p, q *canvas.Path) { p.Segments() }},
-		{name: "Copy", f: func(p, q *canvas.Path) { p.Copy() }},
+		{name: "Copy", f: func(p, q *canvas.Path) { keep(p.Copy()) }},
 		{name: "Equals", f: func(p, q *canvas.Path) { p.Equals(q); p.Same(q) }, binary: true},
 		{name: "String", f: func(p, q *canvas.Path) { _ = p.String() }},
 		{name: "ToSVG", f: func(p, q *canvas.Path) { _ = p.ToSVG() }},
@@ -397,23 +485,24 @@ func actions(r *rng.R) []action {
 		{name: "Split", f: func(p, q *canvas.Path) {
 			for _, sp := range p.Split() {
 				sp.Bounds()
+				keep(sp)
 			}
 		}},
-		{name: "SplitAt", f: func(p, q *canvas.Path) { p.SplitAt(ts...) }},
-		{name: "Reverse", f: func(p, q *canvas.Path) { p.Reverse() }},
-		{name: "Flatten", f: func(p, q *canvas.Path) { p.Flatten(tol) }},
-		{name: "ReplaceArcs", f: func(p, q *canvas.Path) { p.ReplaceArcs() }},
-		{name: "XMonotone", f: func(p, q *canvas.Path) { p.XMonotone() }},
-		{name: "Dash", f: func(p, q *canvas.Path) { p.Dash(off, ds...) }},
-		{name: "Stroke", f: func(p, q *canvas.Path) { p.Stroke(w, cr, jr, tol) }},
-		{name: "Offset", f: func(p, q *canvas.Path) { p.Offset(w, tol); p.Offset(-w, tol) }},
-		{name: "Markers", f: func(p, q *canvas.Path) { p.Markers(q, q, q, true) }, binary: true},
-		{name: "Settle", f: func(p, q *canvas.Path) { p.Settle(fr) }},
-		{name: "And", f: func(p, q *canvas.Path) { p.And(q) }, binary: true},
-		{name: "Or", f: func(p, q *canvas.Path) { p.Or(q) }, binary: true},
-		{name: "Xor", f: func(p, q *canvas.Path) { p.Xor(q) }, binary: true},
-		{name: "Not", f: func(p, q *canvas.Path) { p.Not(q) }, binary: true},
-		{name: "DivideBy", f: func(p, q *canvas.Path) { p.DivideBy(q) }, binary: true},
+		{name: "SplitAt", f: func(p, q *canvas.Path) { keep(p.SplitAt(ts...)...) }},
+		{name: "Reverse", f: func(p, q *canvas.Path) { keep(p.Reverse()) }},
+		{name: "Flatten", f: func(p, q *canvas.Path) { keep(p.Flatten(tol)) }},
+		{name: "ReplaceArcs", f: func(p, q *canvas.Path) { keep(p.ReplaceArcs()) }},
+		{name: "XMonotone", f: func(p, q *canvas.Path) { keep(p.XMonotone()) }},
+		{name: "Dash", f: func(p, q *canvas.Path) { keep(p.Dash(off, ds...)) }},
+		{name: "Stroke", f: func(p, q *canvas.Path) { keep(p.Stroke(w, cr, jr, tol)) }},
+		{name: "Offset", f: func(p, q *canvas.Path) { keep(p.Offset(w, tol), p.Offset(-w, tol)) }},
+		{name: "Markers", f: func(p, q *canvas.Path) { keep(p.Markers(q, q, q, true)...) }, binary: true},
+		{name: "Settle", f: func(p, q *canvas.Path) { keep(p.Settle(fr)) }},
+		{name: "And", f: func(p, q *canvas.Path) { keep(p.And(q)) }, binary: true},
+		{name: "Or", f: func(p, q *canvas.Path) { keep(p.Or(q)) }, binary: true},
+		{name: "Xor", f: func(p, q *canvas.Path) { keep(p.Xor(q)) }, binary: true},
+		{name: "Not", f: func(p, q *canvas.Path) { keep(p.Not(q)) }, binary: true},
+		{name: "DivideBy", f: func(p, q *canvas.Path) { keep(p.DivideBy(q)) }, binary: true},
 		{name: "Transform", f: func(p, q *canvas.Path) { p.Transform(canvas.Identity.Rotate(30).Scale(2, -0.5).Translate(1, 2)) }, inPlace: true},
 		{name: "Translate", f: func(p, q *canvas.Path) { p.Translate(g(r.Range(-64, 64)), 1.5) }, inPlace: true},
 		{name: "Scale", f: func(p, q *canvas.Path) { p.Scale(2, -0.5) }, inPlace: true},
@@ -425,7 +514,17 @@ func actions(r *rng.R) []action {
 
 // observe applies every action; newPath = methods whose doc comment says "returns a new path" (derived from
 // the source by the check): for those and for pure queries the receiver must be unchanged.
+type derivedSample struct {
+	method string
+	data   []float64
+}
+
+// derived: one returned path per case is handed to the Coq validator (KData) to tie wfGo to PathEnc.Enc.wf_data
+var derived *derivedSample
+var finiteOnly = true
+
 func observe(r *rng.R, p, q *canvas.Path, newPath map[string]bool, skip map[string]bool) (fs []finding, ncalls int) {
+	derived = nil
 	for _, a := range actions(r) {
 		if skip[a.name] {
 			continue
@@ -438,6 +537,7 @@ func observe(r *rng.R, p, q *canvas.Path, newPath map[string]bool, skip map[stri
 		}
 		arg := q
 		sr, sq := snapshot(recv), snapshot(arg)
+		produced = nil
 		done := make(chan string, 1)
 		go func() { done <- safe(func() { a.f(recv, arg) }) }()
 		ncalls++
@@ -463,6 +563,52 @@ func observe(r *rng.R, p, q *canvas.Path, newPath map[string]bool, skip map[stri
 			if d := sq.diff(arg); d != "" {
 				fs = append(fs, finding{a.name, "mutation-argument", d})
 				sq.restore(arg)
+			}
+		}
+		// the returned paths: well-formed, and extending one of them must not reach the receiver, the argument or a sibling
+		res := produced
+		produced = nil
+		if finiteOnly {
+			for k, rp := range res {
+				if rp == nil || rp == recv || rp == arg {
+					continue
+				}
+				if why := wfGo(rp.Data()); why != "" {
+					fs = append(fs, finding{a.name, "result-not-well-formed", why})
+					break
+				}
+				if derived == nil && len(rp.Data()) > 0 && len(rp.Data()) <= 320 && r.P(1, 3) {
+					derived = &derivedSample{a.name, append([]float64(nil), rp.Data()...)}
+				}
+				sr2, sq2 := snapshot(recv), snapshot(arg)
+				var sib []snap
+				for j, o := range res {
+					if j != k && o != nil && o != rp {
+						sib = append(sib, snapshot(o))
+					} else {
+						sib = append(sib, snap{})
+					}
+				}
+				msg := safe(func() { rp.QuadTo(1e6+float64(k), 1.5e6, 2e6, -1e6) }) // a pure append: a curve is never merged into the previous segment
+				if msg != "" {
+					continue
+				}
+				if d := sr2.diffVisible(recv); d != "" {
+					fs = append(fs, finding{a.name, "result-shares-memory-with-receiver", "QuadTo appended to returned path " + strconv.Itoa(k) + ": " + d})
+					sr2.restore(recv)
+				}
+				if d := sq2.diffVisible(arg); d != "" && a.binary {
+					fs = append(fs, finding{a.name, "result-shares-memory-with-argument", "QuadTo appended to returned path " + strconv.Itoa(k) + ": " + d})
+					sq2.restore(arg)
+				}
+				for j, o := range res {
+					if j != k && o != nil && o != rp && sib[j].c > 0 {
+						if d := sib[j].diffVisible(o); d != "" {
+							fs = append(fs, finding{a.name, "result-shares-memory-with-sibling", fmt.Sprintf("QuadTo appended to returned path %d changed returned path %d: %s", k, j, d)})
+							sib[j].restore(o)
+						}
+					}
+				}
 			}
 		}
 	}
@@ -727,9 +873,14 @@ func main() {
 					}
 				}
 			}
+			finiteOnly = fam != "nonfinite"
 			fs, nc := observe(r, p, q, newPath, skip)
 			desc["obs"] = fs
 			desc["obs_calls"] = nc
+			if derived != nil {
+				desc["derived_method"] = derived.method
+				desc["derived_coq"] = fmt.Sprintf("KData %s false", cq.Floats(derived.data))
+			}
 		}
 		o.Emit(out.Case{I: i, Fam: fam, Coq: term, Desc: desc})
 	}
